@@ -25,7 +25,9 @@ impl StrTendril {
 #[verifier::external_body]
 pub fn attrs_clone(a: &Vec<Attribute>) -> (r: Vec<Attribute>) ensures r@ == a@ { unimplemented!() }
 // (tokenizer::Tag and TagKind are the repository's, extracted in the unit; Tag::clone is a derive: ASSUMED to copy)
-pub struct QuirksMode { pub x: u8 }
+#[derive(PartialEq, Eq, Clone, Copy, Structural)]
+pub enum QuirksMode { Quirks, LimitedQuirks, NoQuirks }
+pub use QuirksMode::Quirks;
 pub struct TreeBuilderOpts { pub exact_errors: bool, pub scripting_enabled: bool, pub iframe_srcdoc: bool, pub drop_doctype: bool }
 pub struct Cow { pub x: u8 }
 impl Cow {
@@ -51,6 +53,8 @@ pub enum DomOp {
     AppendBasedOnParent(Handle, Handle, NodeOrText),
     ReparentChildren(Handle, Handle),
     CreateComment(Handle, Seq<char>),
+    AddAttrsIfMissing(Handle, Seq<Attribute>),
+    MaybeCloneOption(Handle),
     AssociateWithForm(Handle, Handle, Handle, Option<Handle>),
 }
 /// the handle the sink hands out for the k-th element it creates (ASSUMED: a new one each time)
@@ -70,6 +74,7 @@ pub uninterp spec fn annotation_xml_ip(h: Handle) -> bool;
 pub uninterp spec fn template_contents_of(h: Handle) -> Handle;
 #[derive(PartialEq, Eq, Clone, Copy)]
 pub enum RawKind { Rcdata, Rawtext, ScriptData }
+pub use RawKind::{Rcdata, Rawtext, ScriptData};
 /// the sink (ASSUMED contract-abiding): names are a function of the handle, same_node is handle identity, pop() and
 /// parse_error() are notifications (logged), created elements are logged with the name and tag they were created for
 pub struct Sink { pub pops: Ghost<Seq<Handle>>, pub errs: Ghost<nat>, pub dom: Ghost<Seq<DomOp>>, pub created: Ghost<nat> }
@@ -95,6 +100,10 @@ impl Sink {
     #[verifier::external_body]
     pub fn append_based_on_parent_node(&mut self, element: &Handle, prev_element: &Handle, child: NodeOrText)
         ensures *final(self) == (Sink { dom: Ghost(old(self).dom@.push(DomOp::AppendBasedOnParent(*element, *prev_element, child))), ..*old(self) }) { unimplemented!() }
+    #[verifier::external_body]
+    pub fn add_attrs_if_missing(&mut self, target: &Handle, attrs: Vec<Attribute>) ensures *final(self) == (Sink { dom: Ghost(old(self).dom@.push(DomOp::AddAttrsIfMissing(*target, attrs@))), ..*old(self) }) { unimplemented!() }
+    #[verifier::external_body]
+    pub fn maybe_clone_an_option_into_selectedcontent(&mut self, option: &Handle) ensures *final(self) == (Sink { dom: Ghost(old(self).dom@.push(DomOp::MaybeCloneOption(*option))), ..*old(self) }) { unimplemented!() }
     #[verifier::external_body]
     pub fn create_comment(&mut self, text: StrTendril) -> (r: Handle)
         ensures r == fresh_handle(old(self).created@),
